@@ -33,7 +33,7 @@ def strat_step(draw, tier):
     unique = draw(st.lists(st.sampled_from(uniq_pool), unique=True, max_size=2)) if uniq_pool else []
     comp = draw(gen.composition_s(space, has_beacon='Beacon' in unique, unique_pool=unique))
     need_valid = any(r['name'] == 'getting_closer_shortest_path' for r in comp['rewards'])
-    state = draw(gen.state_s(space, max_hw=7 if tier == 'quick' else 9, valid=need_valid or draw(st.booleans()), unique=tuple(unique)))
+    state = draw(gen.state_s(space, max_hw=7 if tier == 'quick' else 9, valid=need_valid or draw(st.booleans()), unique=tuple(unique), allow_grow=True))
     if draw(st.integers(0, 7)) == 0:
         # the view that covers the grid exactly (agent at the bottom centre facing forward)
         h, w = M.shape(state)
@@ -147,8 +147,11 @@ def oracle_step(case, ctx):
     classes.append('debug' if case['debug'] else 'nodebug')
     if list(comp['view']) == list(shape) and sd['agent'][:3] == [h - 1, w // 2, 'F']:
         classes.append('view==grid')
+    if max(shape) >= 40:
+        classes.append('long_world')
     ctx.ev.case(case, nt=(nd != sd or 'edge_outward' in classes or special), classes=classes,
-                key=[sd, a, comp['chain'], [r['name'] for r in comp['rewards']], comp['term']['name'], comp['obs']])
+                key=[sd, a, comp['chain'], [r['name'] for r in comp['rewards']], comp['term']['name'], comp['obs']],
+                sample=(dict(case, state={'shape': list(shape), 'agent': sd['agent'], 'top_rows': sd['grid'][:2]}) if max(shape) >= 40 else None))
 
 
 # ------------------------------------------------------------------ (b) membership predicates
@@ -375,8 +378,8 @@ def _hist_one(case, ctx):
 
 CHECKS = [
     Check('step_closure', oracle_step, strategy=strat_step, examples={'quick': 1500, 'thorough': 5000},
-          rule='space x member state (1x1..7x7, 9x9 thorough) x action x composition (chain of 1-7 transitions, 1-4 rewards, termination, observation function, view) x seed x debug flag',
-          required=['edge_outward', 'changed', 'rejected_action', 'on_unpaired_telepod', 'debug', 'nodebug', 'view==grid']),
+          rule='space x member state (1x1..7x7, 9x9 thorough; one in sixteen tiled to a long world with a dimension of 40..300) x action x composition (chain of 1-7 transitions, 1-4 rewards, termination, observation function, view) x seed x debug flag',
+          required=['edge_outward', 'changed', 'rejected_action', 'on_unpaired_telepod', 'debug', 'nodebug', 'view==grid', 'long_world']),
     Check('space_membership', oracle_member, strategy=strat_member, examples={'quick': 1500, 'thorough': 5000},
           rule='conforming members and single-aspect non-members of state/observation spaces; contains() must equal the model predicate (both directions); non-trivial = a mutation aspect was applied',
           required=['member', 'non-member']),
